@@ -111,6 +111,9 @@ def check_energies(ctx: Ctx, c: Dict[str, Any]) -> None:
             ("GradLoss[p=3]", lambda r: LF.GradLoss(p=3, q=1, mode=mode, spacing=h, reduction=r)(u), "cubgrad", 3),
             ("elasticity_loss", lambda r: L.elasticity_loss(u, first_parameter=lam1, second_parameter=mu1, mode=mode, spacing=h, reduction=r), ("elasticity", 0), 2),
             ("elasticity_loss[mu only]", lambda r: L.elasticity_loss(u, first_parameter=0.0, second_parameter=1.0, mode=mode, spacing=h, reduction=r), ("elasticity", 1), 2),
+            # no shear stiffness: lam / 2 (div u)^2 = lam * divergence_loss
+            ("elasticity_loss[lam only]", lambda r: L.elasticity_loss(u, first_parameter=1.0, second_parameter=0.0, mode=mode, spacing=h, reduction=r) / 1.0, "divergence", 2),
+            ("Elasticity[lam only]", lambda r: LF.Elasticity(first_parameter=1.0, shear_modulus=0.0, mode=mode, spacing=h, reduction=r)(u), "divergence", 2),
         ]
         for name, fn, key, power in firsts:
             out = guarded(name, lambda: fn("none"), mode=ms)
@@ -232,6 +235,16 @@ def check_bspline(ctx: Ctx, c: Dict[str, Any]) -> None:
 
 def check_lame(ctx: Ctx, c: Dict[str, Any]) -> None:
     import deepali.losses.functional as L
+
+    # materials at the ends of the range: no shear stiffness (mu = 0: only the divergence term remains), no first parameter (lam = 0)
+    for kw, want in ((dict(first_parameter=2.0, second_parameter=0.0), (2.0, 0.0)), (dict(first_parameter=1.5, shear_modulus=0.0), (1.5, 0.0)),
+                     (dict(first_parameter=0.0, second_parameter=0.75), (0.0, 0.75)), (dict(first_parameter=0.0, shear_modulus=1.25), (0.0, 1.25))):
+        try:
+            l2, m2 = L.lame_parameters(**kw)
+            if abs(float(l2) - want[0]) > 1e-9 or abs(float(m2) - want[1]) > 1e-9:
+                ctx.violation(dict(op="lame_parameters", pair="degenerate", mu0=want[1] == 0.0), f"lame_parameters({kw}) = ({l2}, {m2}), expected {want}", dict(lame=[kw]))
+        except Exception as ex:
+            ctx.violation(dict(op="lame_parameters", pair="degenerate", exc=type(ex).__name__), f"lame_parameters({kw}) raised {type(ex).__name__}: {ex}", dict(lame=[kw]))
 
     for lm in c["lame"]:
         lam, mu, E, nu = (float(fl(F(lm[k]))) for k in ("lam", "mu", "E", "nu"))
